@@ -33,5 +33,6 @@ reg(Prop(
         'optional, either, variant, tuple, array, record (also permuted label order), strong_typedef, vector, dim, matrix, box, sphere, '
         'enum array, grid (extents 0-2), tree (<= 4 nodes), raw_vector (length <= 3), bitfield over 3/5-enumerator enums; reference and '
         'shared_ptr over 6-10 object identities)',
+        'thorough: the same with components in {0,1,2,3}, trees with <= 5 nodes, raw_vector length <= 4, all 512/256 subsets for the 9/8-enumerator bitfields, all pairs of uint8_t for the strong_typedef operators',
     ],
 ))
